@@ -70,6 +70,16 @@ def check_text(ctx, T, label, case, canonical, emitted_ast=None):
   # root-cause bucket: a functional-form TypedDict (emitted for keys that are
   # not identifiers) is re-read as alias + synthetic class
   fsfx = ":functional-TypedDict" if " = TypedDict('" in T else ""
+  if not fsfx:
+    # second root-cause bucket: `import m as alias` (a direct import under
+    # another name) with `alias.X` used in a declaration.  Re-read without a
+    # loader, `alias.X` stays spelled through the alias, and the printer takes
+    # `alias` for a real module that collides with the local name.
+    import re
+    for al in re.findall(r"^import [\w.]+ as (\w+)$", T, re.M):
+      if re.search(r"(?<![\w.])%s\.\w" % re.escape(al), T.split("\n\n", 1)[-1]):
+        fsfx = ":aliased-module-import"
+        break
   ctx.check(P == T, "print-parse-not-fixed-point" + fsfx,
             "%s: Print(parse(T)) != T\n--- T\n%s\n--- Print(parse(T))\n%s" %
             (label, T[:1200], P[:1200]), case)
@@ -190,9 +200,76 @@ def part_slots(ctx):
       check_text(ctx, T, "B-slot", case, canonical=True)
 
 
+FIXED_STUBS = [
+    # names reached through from-imported modules, up to four components,
+    # plain and subscripted
+    """from pkg import models
+from pkg.storage import backend as be
+from typing import Optional
+
+DEFAULT: models.Record
+ROOT: models.Tree.Node
+
+class Repo(be.Base):
+    cursor: be.Connection.Cursor
+    def get(self, key: str) -> Optional[models.Record]: ...
+    def walk(self, start: models.Tree.Node) -> list[models.Tree.Node]: ...
+
+def connect(url: str) -> be.Connection: ...
+def deep(x: be.Connection.Pool.Slot[int]) -> models.Tree.Node.Leaf[be.Page[str]]: ...
+def open_cursor(conn: be.Connection) -> be.Connection.Cursor: ...
+def pool(conn: be.Connection) -> be.Connection.Pool[be.Connection.Cursor]: ...
+def rows(c: be.Connection.Cursor) -> be.Page[models.Record]: ...""",
+    """import a.b.c
+import d
+
+x: a.b.c.K.L[d.M.N[int]]
+y: d.M
+
+def f(p: a.b.c.K) -> d.M.N[a.b.c.K.L[str]]: ...""",
+    # slots
+    """class Marker:
+    __slots__ = []
+
+class Pt:
+    __slots__ = ["x", "y"]
+    x: int
+    y: str
+
+class Q(Marker):
+    __slots__ = []
+    def m(self) -> int: ...""",
+    # literals whose members are equal as Python values
+    """from typing import Literal
+
+x: Literal[True, 1]
+y: Literal[0, False, 'a']
+
+def f(x: Literal[True, 1]) -> Literal[1, True]: ...""",
+]
+
+
+def part_fixed_stubs(ctx):
+  from props import progs_c05
+  for i, T0 in enumerate(FIXED_STUBS):
+    if i % ctx.nshards != ctx.shard:
+      continue
+    case = {"kind": "B", "text": T0}
+    ast0 = pt.parse(T0, None)
+    progs_c05.compare_shapes(ctx, T0, ast0, "B-fixed-text", case)
+    T = pt.Print(ast0)
+    # these texts are written in the emitted dialect: the first print already
+    # has to reproduce them
+    ctx.check(T == T0, "print-parse-not-fixed-point",
+              "fixed stub: Print(parse(T)) != T\n--- T\n%s\n--- printed\n%s" % (
+                  T0, T), case)
+    check_text(ctx, T, "B", case, canonical=True)
+
+
 def run_shard(ctx):
   boot.ensure()
   part_slots(ctx)
+  part_fixed_stubs(ctx)
   part_b(ctx, 90 if ctx.quick() else 8000)
   try:
     from props import progs_c05
